@@ -16,6 +16,9 @@ elif prop.endswith("d"):        # fourth round: seeds numbered from 9
 elif prop.endswith("e"):        # fifth round: seeds numbered from 12
     prop = prop[:-1]
     dst_k = str(int(k) + 11)
+elif prop.endswith("f"):        # sixth round: seeds numbered from 15
+    prop = prop[:-1]
+    dst_k = str(int(k) + 14)
 else:
     dst_k = k
 summary = sys.argv[5] if len(sys.argv) > 5 else ""
